@@ -4,7 +4,7 @@ import re
 
 from .. import gcheck
 from ..gcheck import GFamily, run_batches
-from ..report import MachineryError
+from ..report import MachineryError, Report
 from ..families import periph as fam
 
 FACTORY = "harness.families.periph:make"
@@ -22,7 +22,23 @@ TIMERS_INV = ["CountsToZero", "ValueLatched", "EventWhenZero", "IrqIsPendingEnab
 
 UART_INV = ["TxWaveform", "TxBitLength", "TxIdleHigh", "TxReadyOnce", "RxNoSpurious", "RxRightByte", "RxDelivered"]
 
+SPIM_INV = ["ExactPulseCount", "ChipSelectFrames", "DeselectedAtPowerUp", "MosiMsbFirst", "MosiStableWhileHigh", "MisoCaptured",
+            "DoneMeansIdle", "IrqOnlyAtEnd"]
+
+SPIS_INV = ["StartOnce", "IrqOnce", "LengthCounted", "MosiCaptured", "MisoMsbFirst", "MisoStableWhileHigh", "DoneMeansIdle"]
+
+I2C_INV = ["SdaOnlyStartStop", "ClocksPerCommand", "ByteOnSda", "SclPhaseLength", "StatusReadBack", "IdleMeansComplete"]
+
 FAMILIES = {
+    "i2c": (GFamily("periph/I2cGraph", "periph/I2cTrace", FACTORY, hint=fam.I2cHint(),
+                    clause_map=dict({k: k for k in I2C_INV}, Finishes="BoundedFinish"), describe=_describe),
+            I2C_INV, ["Finishes"], fam.i2c_configs),
+    "spis": (GFamily("periph/SpiSlaveGraph", "periph/SpiSlaveTrace", FACTORY, hint=fam.SpiSlaveHint(),
+                     clause_map=dict({k: k for k in SPIS_INV}, Finishes="BoundedFinish"), describe=_describe),
+             SPIS_INV, ["Finishes"], fam.spis_configs),
+    "spim": (GFamily("periph/SpiMasterGraph", "periph/SpiMasterTrace", FACTORY, hint=fam.SpiHint(),
+                     clause_map=dict({k: k for k in SPIM_INV}, Finishes="BoundedFinish"), describe=_describe),
+             SPIM_INV, ["Finishes"], fam.spim_configs),
     "uart": (GFamily("periph/UartGraph", "periph/UartTrace", FACTORY, hint=fam.UartHint(),
                      clause_map=dict({k: k for k in UART_INV}, Finishes="BoundedFinish"), describe=_describe),
              UART_INV, ["Finishes"], fam.uart_configs),
@@ -35,6 +51,9 @@ FAMILIES = {
 WITNESSES = {
     "wdt": ["watchdog timed out", "remaining saturated at zero", "fed while counting"],
     "wait": [],
+    "i2c": ["byte written and acknowledged", "byte written, not acknowledged", "byte read", "stop", "repeated start"],
+    "spis": ["transfer reported", "transfer after the minimum gap", "full word sent"],
+    "spim": ["transfer completed", "back-to-back start", "start during a transfer", "mixed miso bits read back"],
     "tx": ["back-to-back frame", "frame ended, line idle", "stop bit edge"],
     "rx": ["byte delivered", "back-to-back frame"],
     "tline": ["trigger while busy"],
@@ -45,15 +64,21 @@ _WIT_RE = re.compile(r'<<"WIT", (\d+), "([^"]*)">>')
 
 
 class _Witnesses:
-    """collects the <<"WIT", dut, name>> lines of the final TLC run of every batch (GraphLoop keeps
-    the last TLC result in .final); installed around run_batches by _run_family."""
-    def __init__(self):
+    """collects the <<"WIT", dut, name>> lines of the last TLC run of every batch (GraphLoop keeps
+    the last TLC result in .final); installed around run_batches by _run_family.  The loop class also
+    limits the stepper pool: several families run side by side."""
+    def __init__(self, nproc):
         self.seen = {}
+        self.nproc = nproc
 
     def loop_class(self):
-        seen = self.seen
+        seen, nproc = self.seen, self.nproc
 
         class Loop(gcheck_GraphLoop):
+            def __init__(self_inner, *a, **kw):
+                kw.setdefault("workers", nproc)
+                super().__init__(*a, **kw)
+
             def stats(self_inner):
                 res = self_inner.final
                 if res is not None:
@@ -66,12 +91,12 @@ class _Witnesses:
 gcheck_GraphLoop = gcheck.GraphLoop
 
 
-def _run_family(name, report, tier, only=None, log=print, batch=12, **kw):
+def _run_family(name, report, tier, only=None, log=print, batch=12, nproc=8, **kw):
     family, invs, props, cfgfn = FAMILIES[name]
     cfgs = cfgfn(tier)
     if only is not None:
-        cfgs = [x for x in cfgs if only(x[0])]
-    wit = _Witnesses()
+        cfgs = [x for x in cfgs if only(x[0], x[1]) ]
+    wit = _Witnesses(nproc)
     gcheck.GraphLoop = wit.loop_class()
     stats = []
     try:
@@ -104,12 +129,124 @@ def _run_family(name, report, tier, only=None, log=print, batch=12, **kw):
     return stats
 
 
-def run(prop, report, tier, seed):
-    report.assume("one step = one sys-clock cycle of the reference FHDL semantics (litex/gen/sim/core.py); "
-                  "CSR cores behind a real CSRBank, one bus operation per cycle")
-    allstats = []
+# ----------------------------------------------------------------------------- parallel tasks
+class _TaskReport(Report):
+    """Report of one task process: records what the task reports; the parent replays the record on
+    the real Report in a fixed order (file names, printing and evidence stay deterministic)."""
+    def __init__(self, parent):
+        Report.__init__(self, parent.prop, parent.tier, parent.seed, parent.level)
+        self.findings = parent.findings
+        self.calls = []
+
+    def add(self, **kw):
+        self.calls.append(("add", kw))
+
+    def sample(self, x, cap=8):
+        self.calls.append(("sample", x, cap))
+
+    def assume(self, text):
+        self.calls.append(("assume", text))
+
+    def note(self, text):
+        self.calls.append(("note", text))
+
+    def violation(self, sig, replay, text):
+        self.calls.append(("violation", sig, replay, text))
+        return self.match_known(sig) is None
+
+
+def _task_main(conn, name, task, report, tier):
+    import traceback
+    rep = _TaskReport(report)
+    tag = "[%s/%s] " % (name, task)
+    try:
+        st = _run_family(name, rep, tier, only=lambda spec, cfg: str(cfg.get("task", "a")) == task,
+                         log=lambda x: print(tag + x, flush=True), spec_budget=400000, heap="4g",
+                         tlc_timeout=1500 if tier == "quick" else 3000)
+        conn.send(("ok", rep.calls, st))
+    except MachineryError as ex:
+        conn.send(("machinery", rep.calls, str(ex)))
+    except Exception:
+        conn.send(("machinery", rep.calls, "unexpected exception in task %s/%s:\n%s" % (name, task, traceback.format_exc())))
+    finally:
+        conn.close()
+
+
+def _replay_calls(report, calls):
+    for c in calls:
+        if c[0] == "add":
+            report.add(**c[1])
+        elif c[0] == "sample":
+            report.sample(c[1], cap=c[2])
+        elif c[0] == "assume":
+            report.assume(c[1])
+        elif c[0] == "note":
+            report.note(c[1])
+        elif c[0] == "violation":
+            report.violation(c[1], c[2], c[3])
+
+
+def tasks(tier):
+    out = []
     for name in FAMILIES:
-        st = _run_family(name, report, tier, spec_budget=400000)
-        allstats += st
-    report.add(duts_explored=len(allstats), per_dut=allstats)
+        for t in sorted({str(c.get("task", "a")) for _, c in FAMILIES[name][3](tier)}):
+            out.append((name, t))
+    return out
+
+
+def run(prop, report, tier, seed, parallel=None):
+    import multiprocessing as mp
+    import sys
+    report.assume("one step = one sys-clock cycle of the reference FHDL semantics (litex/gen/sim/core.py: "
+                  "compiled stepper cross-checked against the reference evaluator on sampled edges)")
+    report.assume("cores with CSRs sit behind a real CSRBank on a 32-bit CSR bus, one bus operation per cycle; "
+                  "exhaustive over all command timings at reduced parameters (timer/watchdog width 2-3, SPI data "
+                  "width 2-4 and dividers 2-5, UART bit periods 2-16 cycles, I2C clock load 1-5)")
+    report.assume("UART receiver: bit period >= 4 cycles (exact rate) / >= 8 cycles (+-2 % mismatch, any phase), the "
+                  "line idles for three cycles after reset; SPI slave: master half period >= 4 cycles; I2C: clock "
+                  "load >= 1, no clock stretching, commands follow the I2C transaction grammar")
+    tl = tasks(tier)
+    par = parallel if parallel is not None else int(os.environ.get("VERIF_C19_PARALLEL", "6"))
+    ctx = mp.get_context("fork")
+    pending = list(tl)
+    running = {}
+    results = {}
+    limit = 900 if tier == "quick" else 3300
+    import time
+    sys.stdout.flush()
+    while pending or running:
+        while pending and len(running) < max(1, par):
+            name, task = pending.pop(0)
+            rx, tx = ctx.Pipe(duplex=False)
+            pr = ctx.Process(target=_task_main, args=(tx, name, task, report, tier))
+            pr.start()
+            tx.close()
+            running[(name, task)] = (pr, rx, time.time())
+        for key, (pr, rx, t0) in list(running.items()):
+            if rx.poll(0.2):
+                try:
+                    results[key] = rx.recv()
+                except EOFError:
+                    results[key] = ("machinery", [], "task %s/%s died without a result" % key)
+                pr.join(30)
+                del running[key]
+            elif not pr.is_alive():
+                results[key] = ("machinery", [], "task %s/%s died without a result" % key)
+                del running[key]
+            elif time.time() - t0 > limit:
+                pr.terminate()
+                results[key] = ("machinery", [], "task %s/%s exceeded its time limit of %d s" % (key + (limit,)))
+                del running[key]
+    allstats = []
+    errors = []
+    for key in tl:                       # merge in the fixed task order
+        kind, calls, payload = results[key]
+        _replay_calls(report, calls)
+        if kind == "ok":
+            allstats += payload
+        else:
+            errors.append(payload)
+    report.add(duts_explored=len(allstats), per_dut=allstats, tasks=["%s/%s" % k for k in tl])
+    if errors:
+        raise MachineryError("; ".join(errors))
     report.cov["exhaustive"] = True
